@@ -280,3 +280,53 @@ def run(ctx):
         'netCDF4.Dataset.close() is not idempotent and the C library recycles ids; Dataset.isopen() reports the state',
         'values that flow through eval/exec, getattr with computed names, reshape/ravel are UNKNOWN and never alarmed',
     ]
+
+
+QUERY_NAMES = set(['getTimes', 'll2ij', 'ij2ll', 'xy2ll', 'll2xy', 'getMap', 'getproj', 'val2idx', 'time2idx', 'time2t', 'date2num',
+                   '__repr__', '__str__', 'dump', 'ncattrs', 'getncatts', 'getncattr', 'getCoords', 'plot', 'audit_meta', 'isMine',
+                   'get_dest', 'get_varopt', 'iswritable', 'getVarlist_readonly', 'timerange', 'keys', 'items', 'values', 'getArray'])
+
+
+def run_thorough(ctx, seed=0):
+    """whole package: every override of a query in any class that derives from PseudoNetCDFFile, and pncdump"""
+    src = ctx.src
+    n = 0
+    for mod in src.all_modules():
+        for cname, c in mod.classes.items():
+            if '.' in cname:
+                continue
+            try:
+                mro = src.mro(mod.relpath, cname)
+            except Exception:
+                continue
+            if ('core/_files.py', 'PseudoNetCDFFile') not in mro or (mod.relpath, cname) in (('core/_files.py', 'PseudoNetCDFFile'), ('core/_files.py', 'netcdf')):
+                continue
+            for st in c.body:
+                if isinstance(st, ast.FunctionDef) and st.name in QUERY_NAMES:
+                    q = '%s.%s' % (cname, st.name)
+                    decos = [dotted(d) for d in st.decorator_list]
+                    recv = None if ('classmethod' in decos or 'staticmethod' in decos) else (st.args.args[0].arg if st.args.args else None)
+                    p, events, nsink, bad = _qmut_scan(ctx, mod, q, st, recv, [], [], False)
+                    n += 1
+                    where = 'src/PseudoNetCDF/%s %s' % (mod.relpath, q)
+                    if bad:
+                        for ev in bad:
+                            ctx.violation(Finding('R-QMUT', mod.relpath, q, ev.stmt, 'query override %s writes %s storage of %s (%s)' % (
+                                q, ev.base[0], ev.base[1], ev.kind)), oid='%s:%s' % (q, norm(ev.stmt)[:60]))
+                    else:
+                        ctx.ok('R-QMUT', '%s:%s' % (mod.relpath, q), where, 'query override: %d write sinks, none on receiver storage' % nsink)
+    m = src.mod('pncdump.py')
+    for q, fn in sorted(m.functions.items()):
+        if '<locals>' in q or '.' in q:
+            continue
+        params = [a.arg for a in fn.args.args]
+        fp = [x for x in params if x in ('f', 'ifile', 'pfile')]
+        p, events, nsink, bad = _qmut_scan(ctx, m, q, fn, None, fp, [], False)
+        n += 1
+        if bad:
+            for ev in bad:
+                ctx.violation(Finding('R-QMUT', 'pncdump.py', q, ev.stmt, 'dump writes %s storage of %s (%s)' % (ev.base[0], ev.base[1], ev.kind)))
+        else:
+            ctx.ok('R-QMUT', 'pncdump.py:%s' % q, 'src/PseudoNetCDF/pncdump.py %s' % q, '%d write sinks, none on the dumped file' % nsink)
+    ctx.count('query overrides analysed package-wide (thorough)', n)
+    ctx.floor('package-wide query overrides', n, 20)
